@@ -383,6 +383,14 @@ pub async fn plan_compaction(""", expect="mutator:dataset::optimize::drop_old_fi
          old="        let num_rows = self.writer.finish().await? as u32;",
          new="        let num_rows = self.writer.finish().await.unwrap_or(0) as u32;",
          expect="DOM-data-closed|V2WriterAdapter"),
+    dict(name="c17_stamp_from_read_version", prop="C17", file=TX, what="appended rows stamped with read_version+1 instead of the version being published",
+         old="""                    Self::assign_row_ids(next_row_id, new_fragments.as_mut_slice())?;
+                    // Add version metadata for all new fragments
+                    let new_version = current_manifest.map(|m| m.version + 1).unwrap_or(1);""",
+         new="""                    Self::assign_row_ids(next_row_id, new_fragments.as_mut_slice())?;
+                    // Add version metadata for all new fragments
+                    let new_version = self.read_version + 1;""",
+         expect="ORIGIN-stamp|stamp:"),
     # ------------------------------------------------------------------ C42
     dict(name="c42_absolute_data_path", prop="C42", file="rust/lance/src/dataset/write.rs", what="data files recorded with their full path",
          old="""        let writer_adapter = V2WriterAdapter {
